@@ -380,6 +380,7 @@ func (p *Parser) collectSpecs(
 	}
 
 	filenameIndex := fileNameToIndex(source.filename)
+	verifYield("claim", source.filename, currentImportDepth)
 	retrieved.mutex.Lock()
 	if fi, has := retrieved.l[filenameIndex]; has {
 		retrieved.mutex.Unlock()
